@@ -7,7 +7,7 @@ Model/Eval.v and the implementation.  Direct oracle: `(E) as $x | .` prints what
 import json
 import vlib, evalgen, evalcheck
 
-EXTRA_OPS = ["from_entries", ".a | from_entries", ".[] | from_entries", "with_entries(.)", "to_entries | from_entries", "tojson", "to_yaml", "@base64", "keys", "to_entries", "with_entries(.)", "min", "max", "tag", "kind", "type",
+EXTRA_OPS = [".b * .a", ".b * {\"k\": {\"j\": 1}}", ".a.b * {\"k\": 1}", ".b *+ .a", ".b *d .a", ".b + .a", ".b // .a", "from_entries", ".a | from_entries", ".[] | from_entries", "with_entries(.)", "to_entries | from_entries", "tojson", "to_yaml", "@base64", "keys", "to_entries", "with_entries(.)", "min", "max", "tag", "kind", "type",
              "has(\"a\")", "pick([\"a\"])", "omit([\"a\"])", "sort_by(.a)", "group_by(.a)", "unique_by(.a)", "any_c(.a)", "all_c(.a == 1)",
              "contains(\"a\")", "upcase", "downcase", "test(\"a\")", "sub(\"a\";\"b\")", "split(\"a\")", "join(\",\")", "length",
              "to_number", "tostring", "first", "flatten", "reverse", "sort", "unique", "map(.a)", "filter(.a)", "select(.a)",
@@ -83,12 +83,13 @@ def run(chk):
     docs = [evalgen.gen_doc(chk.rng) for _ in range(60 if not thorough else 400)]
     docs += [{"a": [1, [2, [3]]], "b": None, "c": "x"}, {"a": None}, [1, 2], {"a": {"b": None}}, [[3, 1], [2]], {"a": "a,b", "b": "b"}, {"a": 1, "b": 2}]
     # entry-shaped items with a part missing (operators that look a key up inside their input must not create it)
-    docs += [[{"key": "a"}, {"key": "b", "value": 1}], {"a": [{"key": "k"}], "b": [{"value": 1}]}, [{"key": "a", "value": None}, {}],
+    docs += [{"a": {"k": {"x": 1}, "l": [1]}, "b": None}, {"a": {"b": None}, "b": None},
+             [{"key": "a"}, {"key": "b", "value": 1}], {"a": [{"key": "k"}], "b": [{"value": 1}]}, [{"key": "a", "value": None}, {}],
              {"a": [{"key": "x", "value": 2}, {"key": "y"}]}, [{"k": 1}, {"key": 5, "value": 6}]]
     tcases = []
     pcases = []
     for d in docs:
-        for op in (EXTRA_OPS if thorough else EXTRA_OPS[:5] + chk.rng.sample(EXTRA_OPS[5:], 22)):
+        for op in (EXTRA_OPS if thorough else EXTRA_OPS[:12] + chk.rng.sample(EXTRA_OPS[12:], 20)):
             for wrap in ("(%s) as $x | .", "[.. | select(%s)], .", "(.. | %s) as $x | ."):
                 tcases.append(((wrap % op), d))
             pcases.append((("(%s) as $x | [.. | path]" % op), d))
